@@ -116,33 +116,41 @@ def run(ctx, rep):
     rep.floor("key-role call edges", n_roles, 40)
 
 
+KS = "salsa20::cipher::StreamCipher::apply_keystream"
+
+
 def keystream(rep, prog):
-    # discovered from the public API: functions below crypto_secretbox_detached / _open_detached that
-    # drive an XSalsa20 cipher
+    # discovered from the public API: the lowest functions below crypto_secretbox_detached /
+    # _open_detached whose inlined view (private helpers folded in) drives an XSalsa20 cipher twice
+    from ..inline import inline
     pubs = prog.by_path.get("classic::crypto_secretbox::crypto_secretbox_detached", []) + \
         prog.by_path.get("classic::crypto_secretbox::crypto_secretbox_open_detached", [])
-    roots = [prog.by_key[k] for k in prog.reach_fns(pubs)
-             if any(c.path == "salsa20::cipher::StreamCipher::apply_keystream" for c in prog.by_key[k].calls())]
+    keep = (lambda g: bool(cm.POLY_NEW.search(g.path) or cm.POLY_UPDATE.search(g.path) or cm.POLY_FINAL.search(g.path)) or g.path.startswith("poly1305::"),)
+    views = {}
+    for k in prog.reach_fns(pubs):
+        v = inline(prog, prog.by_key[k], keep=keep)
+        if sum(1 for c in v.calls() if c.path == KS) >= 2:
+            views[k] = v
+    roots = [v for k, v in views.items() if not any(g.key in views for g in prog.callees(prog.by_key[k]))]
     n = 0
     for f in roots:
-        ks = [c for c in f.calls() if c.path == "salsa20::cipher::StreamCipher::apply_keystream"]
-        if len(ks) < 2:
-            continue
+        ks = [c for c in f.calls() if c.path == KS]
         n += 1
-        data = f.arg_local("data")
         info = []
         for c in ks:
             ls = list(operand_locals(c.args[1]))
             root, narrowed = cm.view_info(f, ls[0])
             cipher = cm.view_info(f, list(operand_locals(c.args[0]))[0])[0]
             info.append((c, root, cipher, f.locals[root]["t"]))
-        keyk = [i for i in info if i[1] != data]
-        payk = [i for i in info if i[1] == data]
+        # payload: a caller-supplied byte slice; MAC key: a local buffer
+        keyk = [i for i in info if i[1] > f.argc]
+        payk = [i for i in info if 1 <= i[1] <= f.argc]
         ok = len(keyk) == 1 and len(payk) == 1 and "32" in keyk[0][3] and keyk[0][2] == payk[0][2]
         rep.ob("KEYSTREAM", f.path + "|two-phase", ok,
                "keystream calls: %s" % [(c.line(), f.local_name(r), t[:30]) for c, r, _, t in info], loc=f.loc())
         if not ok:
             continue
+        data = payk[0][1]
         kc, pc = keyk[0][0], payk[0][0]
         rep.ob("KEYSTREAM", f.path + "|mac-key-first", kc.bb in f.dom.get(pc.bb, ()) and kc.bb != pc.bb,
                "the MAC-key keystream call dominates the payload keystream call on the same cipher", loc=kc.loc())
